@@ -39,11 +39,11 @@ func (j *qrJudge) judgePair(x, y ref.Bits, only string, onlyMode int) {
 
 	type expect int
 	const (
-		eNormal expect = iota
-		eZeroX         // x = 0, y finite non-zero: (xor zero, x-signed zero)
-		eOverInf       // finite / Inf: (xor zero, x)
-		eInvalidInf    // r NaN, q Inf xor
-		eInvalidNaN    // both NaN
+		eNormal     expect = iota
+		eZeroX             // x = 0, y finite non-zero: (xor zero, x-signed zero)
+		eOverInf           // finite / Inf: (xor zero, x)
+		eInvalidInf        // r NaN, q Inf xor
+		eInvalidNaN        // both NaN
 	)
 	var kind expect
 	var t, R *big.Int
